@@ -268,8 +268,11 @@ def run(ctx):
     for c in dc:
         if "genesis" not in c and rng.random() < 0.5:
             c["genesis"] = rng.choice([1, 2, 3, 5, 7, 23])
-    for mfield in FIELDS:
-        dc.append({"iv": 1, "members": [0, 1, 2], "signer": 1, "ts": 1700000000001 * 1000000, "rel": False, "mutate": mfield})
+    # tampered blocks naming another producer (signer 1, 5) and naming the VERIFYING NODE ITSELF (signer 0 = the
+    # engine's local p2pkey identity), the latter as a member and as an outsider of the producer set
+    for mfield in FIELDS + ["NoSign", "WrongKey"]:
+        for signer, members in ((1, [0, 1, 2]), (0, [0, 1, 2]), (0, [3, 4]), (5, [0, 1, 2])):
+            dc.append({"iv": 1, "members": members, "signer": signer, "ts": 1700000000001 * 1000000, "rel": False, "mutate": mfield})
     for q in range(-8, 14):
         dc.append({"iv": 1, "members": [0, 1, 2], "signer": 1, "ts": q * 250 * 1000000, "rel": True, "mutate": ""})
     fin = os.path.join(ctx.workdir, "c09.in")
@@ -298,13 +301,16 @@ def run(ctx):
     for c, o in zip(dc, obs):
         ids = "[" + ";".join(str(m) for m in c["members"]) + "]"
         # future observable: VerifyTimestamp false <-> is_future (no LIB in this engine)
+        # a header whose key was flipped names nobody: the model's signer is an outsider (the engine's "idx" is
+        # the index of the key the block was signed with, not of the unparsable header key)
+        garbage = c["mutate"] == "PubKey"
         items.append("((%s,%s,%s,%s,%s,%s),(%s,%s,%s))" % (
-            Z(c["iv"] * 1000), ids, Z(c["signer"]), Z(o["ts"]), Z(o["now0"]), Z(o["now1"]),
-            Z(o["idx"]), B(o["valid"]), B(not o["ts_ok"])))
+            Z(c["iv"] * 1000), ids, Z(-1 if garbage else c["signer"]), Z(o["ts"]), Z(o["now0"]), Z(o["now1"]),
+            Z(65535 if garbage else o["idx"]), B(o["valid"]), B(not o["ts_ok"])))
         nontriv.add((o["valid"], o["sig_ok"], o["ts_ok"], o["idx"] == 65535, c["mutate"]))
         # direct predicates on the implementation
         if c["mutate"]:
-            if c["mutate"] == "Sign":
+            if c["mutate"] in ("Sign", "NoSign", "WrongKey"):
                 if not o["digest_eq"]:
                     pred_fail.append(("signed digest depends on Sign", c))
                 if o["hash_eq"]:
@@ -315,7 +321,9 @@ def run(ctx):
                 if o["hash_eq"]:
                     pred_fail.append(("block hash does not cover header field " + c["mutate"], c))
             if o["sig_ok"]:
-                pred_fail.append(("signature still verifies after mutating " + c["mutate"], c))
+                who = " (block naming the verifying node itself)" if c["signer"] == 0 else ""
+                pred_fail.append(("C09:tampered-block-passes-verifysign", "DPoS.VerifySign accepts a block tampered after signing (%s)%s"
+                                  % (c["mutate"], who), dict(case=c, obs=o)))
         else:
             if not o["sig_ok"]:
                 pred_fail.append(("honest signature rejected", c))
